@@ -1515,3 +1515,60 @@ Proof.
   eexists. eexists. split; [reflexivity|]. simpl. split; [apply nth_upd_same; exact Hi|].
   unfold cnt_ok in Hc. simpl. replace (length (log t) - length (nrf t)) with (seen t) by lia. auto.
 Qed.
+
+(* ================================================================== *)
+(* the two reads of a poll: status first, text second                    *)
+(* ================================================================== *)
+Definition worker_ok (t : tr) : Prop := cur t = em t ++ todo t /\ (proc t = ExitOk -> todo t = []).
+
+Lemma w_apply_exited w t : proc t <> Running -> w_apply Generic w t = t.
+Proof. intros N. destruct w; simpl; unfold t_emit, t_finish, t_fail; destruct (proc t); auto; congruence. Qed.
+
+Lemma fold_exited mid : forall t, proc t <> Running -> fold_left (fun t w => w_apply Generic w t) mid t = t.
+Proof. induction mid as [|w r IH]; intros t N; simpl; auto. rewrite w_apply_exited by auto. apply IH; auto. Qed.
+
+(* a poll that shows a trial as completed carries every report of its run: the text read second
+   holds all of them, whatever the worker did between the two reads *)
+Theorem read_final_status_complete mid t s lg t1 :
+  worker_ok t -> read_trial mid t = (s, lg, t1) -> s = Completed ->
+  t1 = t /\ lg = log t /\ todo t = [] /\ skipn (base t) lg = cur t.
+Proof.
+  intros (Hc & Hpt) R Hs. unfold read_trial in R. inversion R; subst. clear R.
+  assert (Hp : proc t = ExitOk).
+  { unfold status_of in H0. destruct (mark t); try discriminate. destruct (proc t); try discriminate; auto. }
+  rewrite fold_exited by congruence. repeat split; auto.
+  rewrite Hc, (Hpt Hp), app_nil_r. reflexivity.
+Qed.
+
+(* in the other order this is false: the worker writes its last report and exits after the text
+   was read and before the status is read *)
+Lemma text_first_loses_tail :
+  exists t mid s lg t1, worker_ok t /\ read_trial_text_first mid t = (s, lg, t1) /\ s = Completed /\
+                        skipn (base t) lg <> cur t.
+Proof.
+  exists (new_trial [(1%Q, 7%Z)]), [Finish 0]. eexists. eexists. eexists.
+  split; [split; [reflexivity|discriminate]|]. split; [reflexivity|]. split; [reflexivity|]. simpl. discriminate.
+Qed.
+
+(* status first = the writes happen before the poll, the exit after it *)
+Lemma firstn_skipn_all {A} (l : list A) k : length l <= k -> firstn k l = l /\ skipn k l = [].
+Proof. intros H. split; [apply firstn_all2; auto|apply skipn_all2; auto]. Qed.
+
+Lemma read_trial_finish_decomp t i k :
+  proc t = Running -> length (todo t) <= k ->
+  let tb := t_emit Generic k t in
+  read_trial [Finish i] t = (status_of tb, log tb, t_finish Generic tb).
+Proof.
+  intros Hp Hk. destruct (firstn_skipn_all (todo t) k Hk) as (Hf & Hsk).
+  destruct t as [lg td pr mk sn cs nr cu dc bs fn pa]; simpl in *. subst pr.
+  unfold read_trial, t_emit, t_finish, t_write, status_of; simpl. rewrite Hf, Hsk. simpl.
+  rewrite app_nil_r. reflexivity.
+Qed.
+
+Lemma poll2_good ids mid decs : Forall good_ev (poll2 ids mid decs).
+Proof.
+  unfold poll2. apply Forall_app. split; [|apply Forall_app; split].
+  - apply Forall_forall. intros e He. apply in_map_iff in He. destruct He as (m & <- & _). split; simpl; auto.
+  - constructor; [split; simpl; auto|constructor].
+  - apply Forall_forall. intros e He. apply in_map_iff in He. destruct He as (w & <- & _). split; simpl; auto.
+Qed.
